@@ -6,6 +6,7 @@ CHECK = {
     "level_note": "Which queued actor is admitted next is the Go runtime's choice (observed, never required). After Close() of the underlying connection only wire integrity and the race verdict apply. Hooks: /repo commit listed in MANIFEST.hooks.",
     "parts": [
         {"name": "stress", "pkg": "websocket", "run": "^TestVerif_C15_Stress$", "race": True, "timeout": {"quick": 900, "thorough": 7200}},
+        {"name": "closewindow", "pkg": "websocket", "run": "^TestVerif_C15_CloseWindow$", "race": True, "timeout": {"quick": 900, "thorough": 7200}},
         {"name": "directed", "pkg": "websocket", "run": "^TestVerif_C15_Directed$", "race": True, "timeout": {"quick": 900, "thorough": 7200}},
     ],
     "assumptions": [
